@@ -111,8 +111,84 @@ func (s *Spec) spell(from, to, kind int) string {
 // OpenAPI 2: the Go importer (the OpenAPI 3 path goes through arr.ai and takes seconds per file)
 const goodYaml = "swagger: \"2.0\"\ninfo:\n  title: T\n  version: \"1\"\npaths: {}\n"
 
+// healthy: the content of file i without any fault; bodyStart = offset of the first byte after the import lines
+func (s *Spec) healthy(i int) (text string, bodyStart int) {
+	var sb strings.Builder
+	for _, im := range s.Imps[i] {
+		fmt.Fprintf(&sb, "import %s\n", s.spell(i, im.To, im.Kind))
+	}
+	bodyStart = sb.Len()
+	fmt.Fprintf(&sb, "Common:\n    ...\nA%d:\n    E%d:\n        ...\n    !type T%d:\n        x <: int\nL%d [~last, k=\"v\"]:  \n    ...\n", i, i, i, i)
+	return sb.String(), bodyStart
+}
+
+// cutAt: "cut@N" -> N
+func cutAt(fault string) (int, bool) {
+	if !strings.HasPrefix(fault, "cut@") {
+		return 0, false
+	}
+	n := 0
+	fmt.Sscanf(fault[4:], "%d", &n)
+	return n, true
+}
+
+// cutClass classifies a truncation of `full` to its first n bytes STRUCTURALLY (never by asking the parser):
+//   header : the cut lies inside an application header line, after the first character of the name and
+//            before the line's newline - an incomplete declaration, MUST be reported as an error
+//   valid  : the cut is at a line boundary, the next line starts a new application and the line before is not
+//            an application header - the kept text is a complete file and MUST compile
+//   other  : anything else (inside a body line, in the import lines ...): no demand either way
+func cutClass(full string, bodyStart, n int) string {
+	isHeader := func(ls int) bool { // the line starting at ls is an application header
+		return ls < len(full) && full[ls] != ' ' && full[ls] != '\t' && full[ls] != '#' && full[ls] != '\n' && full[ls] != '\r' &&
+			!strings.HasPrefix(full[ls:], "import")
+	}
+	if n >= len(full) {
+		return "valid"
+	}
+	if n <= bodyStart {
+		return "other"
+	}
+	if full[n-1] == '\n' {
+		prev := strings.LastIndexByte(full[:n-1], '\n') + 1
+		if isHeader(n) && !isHeader(prev) {
+			return "valid"
+		}
+		return "other"
+	}
+	ls := strings.LastIndexByte(full[:n], '\n') + 1
+	if isHeader(ls) {
+		return "header"
+	}
+	return "other"
+}
+
+// kind: the effective fault kind of file i ("" = healthy): cuts are header | valid-cut | other-cut
+func (s *Spec) kind(i int) string {
+	f := s.Faults[i]
+	if n, ok := cutAt(f); ok {
+		full, bs := s.healthy(i)
+		switch cutClass(full, bs, n) {
+		case "header":
+			return "cut-header"
+		case "valid":
+			return ""
+		default:
+			return "cut-other"
+		}
+	}
+	return f
+}
+
 func (s *Spec) content(i int) string {
 	fault := s.Faults[i]
+	if n, ok := cutAt(fault); ok && !s.foreign(i) {
+		full, _ := s.healthy(i)
+		if n < len(full) {
+			return full[:n]
+		}
+		return full
+	}
 	if s.foreign(i) {
 		switch fault {
 		case "detect":
@@ -129,12 +205,12 @@ func (s *Spec) content(i int) string {
 	if fault == "imports" {
 		sb.WriteString("import oops this is no path ~~\n")
 	}
-	body := fmt.Sprintf("Common:\n    ...\nA%d:\n    E%d:\n        ...\n    !type T%d:\n        x <: int\n", i, i, i)
+	body := fmt.Sprintf("Common:\n    ...\nA%d:\n    E%d:\n        ...\n    !type T%d:\n        x <: int\nL%d [~last, k=\"v\"]:  \n    ...\n", i, i, i, i)
 	switch fault {
 	case "body":
 		body = fmt.Sprintf("Common:\n    ...\nA%d:\n    E%d [\n        ...\n", i, i)
 	case "trunc":
-		body = body[:len(body)-12] // cut off in the middle of the type declaration (probed: a syntax error)
+		body = body[:len(body)-12] // cut off right before the colon of the last application's header
 	}
 	sb.WriteString(body)
 	return sb.String()
@@ -223,10 +299,9 @@ func settled() bool {
 			st = st[:c]
 		}
 		switch st {
-		case "chan receive":
-			if !strings.Contains(gr, "gate).ReadHashBranch") {
-				return false
-			}
+		case "chan receive", "chan send", "select", "chan receive (nil chan)", "chan send (nil chan)", "select (no cases)":
+			// in the gate, or parked on some channel of the code under test (a semaphore ...): at rest either
+			// way; if nothing can ever wake it the run ends as a hang
 		case "semacquire", "sync.WaitGroup.Wait":
 			if !strings.Contains(gr, "WaitGroup).Wait") {
 				return false
@@ -284,6 +359,32 @@ func (ch Chooser) fn() func(blocked []int, step int) int {
 				}
 			}
 			return blocked[0]
+		}
+	case "prefer": // the oldest blocked read of a listed file, else the oldest
+		return func(b []int, _ int) int {
+			for _, x := range b {
+				for _, y := range ch.List {
+					if x == y {
+						return x
+					}
+				}
+			}
+			return b[0]
+		}
+	case "avoid": // the oldest blocked read of a file NOT listed, else the oldest
+		return func(b []int, _ int) int {
+			for _, x := range b {
+				listed := false
+				for _, y := range ch.List {
+					if x == y {
+						listed = true
+					}
+				}
+				if !listed {
+					return x
+				}
+			}
+			return b[0]
 		}
 	case "prefix":
 		return func(b []int, step int) int {
@@ -629,7 +730,16 @@ func judge(c *common.Ctx, s *Spec, o Obs, rp Replay) {
 	}
 	var hit []int
 	for _, i := range sortedFaults(s) {
-		if read[i] {
+		if !read[i] {
+			continue
+		}
+		switch s.kind(i) {
+		case "":
+			// a cut at a declaration boundary: a complete, shorter file
+		case "cut-other":
+			c.Hist("unclassified-cut-not-judged")
+			return
+		default:
 			hit = append(hit, i)
 		}
 	}
@@ -642,7 +752,7 @@ func judge(c *common.Ctx, s *Spec, o Obs, rp Replay) {
 	}
 	kinds := map[string]bool{}
 	for _, i := range hit {
-		kinds[s.Faults[i]] = true
+		kinds[s.kind(i)] = true
 	}
 	var ks []string
 	for k := range kinds {
@@ -691,7 +801,7 @@ func gInts(l []int) string {
 	return "[" + strings.Join(it, ";") + "]"
 }
 
-var faultCtor = map[string]string{"read": "ReadErr", "imports": "ImportSyntax", "body": "BodySyntax", "trunc": "BodySyntax",
+var faultCtor = map[string]string{"cut-header": "BodySyntax", "read": "ReadErr", "imports": "ImportSyntax", "body": "BodySyntax", "trunc": "BodySyntax",
 	"detect": "ForeignDetect", "convert": "ForeignConvert"}
 
 func gCase(s *Spec, o Obs) string {
@@ -702,7 +812,13 @@ func gCase(s *Spec, o Obs) string {
 	}
 	var fl []string
 	for _, i := range sortedFaults(s) {
-		fl = append(fl, fmt.Sprintf("(%d,%s)", i, faultCtor[s.Faults[i]]))
+		switch k := s.kind(i); k {
+		case "":
+		case "cut-other":
+			return ""
+		default:
+			fl = append(fl, fmt.Sprintf("(%d,%s)", i, faultCtor[k]))
+		}
 	}
 	tr := make([]string, len(o.Trace))
 	for i, st := range o.Trace {
@@ -773,6 +889,62 @@ func genGraph(r *common.Rng, maxN int) *Spec {
 	return s
 }
 
+// genWide: the root imports 6-12 files, 4-8 of them fail (read error, some unparsable import lines), in random
+// positions; healthy ones have children of their own that are still to be read after the failures
+func genWide(r *common.Rng) *Spec {
+	k := 6 + r.Intn(7)
+	s := &Spec{Dirs: [][]string{{}}, Imps: [][]Imp{nil}, Foreign: []bool{false}, Faults: map[int]string{}}
+	add := func(parent int) int {
+		id := s.n()
+		s.Dirs = append(s.Dirs, []string{})
+		s.Imps = append(s.Imps, nil)
+		s.Foreign = append(s.Foreign, false)
+		s.Imps[parent] = append(s.Imps[parent], Imp{id, r.Intn(5)})
+		return id
+	}
+	var kids []int
+	for j := 0; j < k; j++ {
+		kids = append(kids, add(0))
+	}
+	nf := 4 + r.Intn(5)
+	if nf > k-1 {
+		nf = k - 1
+	}
+	perm := append([]int{}, kids...)
+	for i := len(perm) - 1; i > 0; i-- {
+		j := r.Intn(i + 1)
+		perm[i], perm[j] = perm[j], perm[i]
+	}
+	for _, f := range perm[:nf] {
+		if r.Chance(1, 5) {
+			s.Faults[f] = "imports"
+		} else {
+			s.Faults[f] = "read"
+		}
+	}
+	for _, h := range perm[nf:] { // deeper files under the healthy ones
+		d := add(h)
+		if r.Chance(1, 2) {
+			add(d)
+		}
+		if r.Chance(1, 3) {
+			e := add(h)
+			if r.Chance(1, 3) {
+				s.Faults[e] = "read"
+			}
+		}
+	}
+	return s
+}
+
+func (s *Spec) faultyIDs() []int {
+	var l []int
+	for _, i := range sortedFaults(s) {
+		l = append(l, i)
+	}
+	return l
+}
+
 func (s *Spec) kindsFor(i int) []string {
 	if s.foreign(i) {
 		return []string{"detect", "convert", "read"}
@@ -788,6 +960,10 @@ func addFaults(r *common.Rng, s *Spec, k int) {
 		}
 		ks := s.kindsFor(i)
 		s.Faults[i] = ks[r.Intn(len(ks))]
+		if !s.foreign(i) && r.Chance(1, 3) { // a truncation at a sampled offset of the body
+			full, bs := s.healthy(i)
+			s.Faults[i] = fmt.Sprintf("cut@%d", bs+1+r.Intn(len(full)-bs-1))
+		}
 	}
 }
 
@@ -812,10 +988,12 @@ func (r *runner) one(s *Spec, ch Chooser, label string) Obs {
 		read[f] = true
 	}
 	hit := 0
-	for i, k := range s.Faults {
-		if read[i] {
+	for i := range s.Faults {
+		if k := s.kind(i); read[i] && k != "" && k != "cut-other" {
 			hit++
 			r.c.Hist("hit:" + k)
+		} else if read[i] {
+			r.c.Hist("read-with-cut:" + map[string]string{"": "valid-prefix", "cut-other": "unclassified"}[k])
 		}
 	}
 	b, _ := json.Marshal(s)
@@ -940,7 +1118,33 @@ Local Open Scope N_scope.`
 	}
 	r.all(diamond, 60)
 
-	nRand, nSched, maxN, matrixN := 110, 2, 6, 6
+	// 0b. truncation at EVERY byte offset of the body of a non-root file and of the last two declarations of the root
+	for _, f := range []int{3, 0} {
+		full, bs := diamond.healthy(f)
+		from := bs + 1
+		if f == 0 {
+			from = strings.Index(full, "    !type")
+		}
+		for n := from; n < len(full); n++ {
+			t := clone(diamond)
+			t.Faults[f] = fmt.Sprintf("cut@%d", n)
+			r.one(t, Chooser{Kind: "oldest"}, "cut-enumeration")
+		}
+	}
+	// 0c. wide fan-outs with many failing reads and work left afterwards: failures first, failures last, random
+	nWide := 10
+	if c.Thorough() {
+		nWide = 120
+	}
+	for i := 0; i < nWide; i++ {
+		w := genWide(c.Rng)
+		r.one(w, Chooser{Kind: "prefer", List: w.faultyIDs()}, "failures-first")
+		r.one(w, Chooser{Kind: "avoid", List: w.faultyIDs()}, "failures-last")
+		r.one(w, Chooser{Kind: "random", Seed: c.Rng.Uint64()}, "random")
+		r.one(w, Chooser{Kind: "newest"}, "newest-first")
+	}
+
+	nRand, nSched, maxN, matrixN := 90, 2, 6, 5
 	if c.Thorough() {
 		nRand, nSched, maxN, matrixN = 1000, 4, 8, 40
 	}
